@@ -51,10 +51,17 @@ def make_stores(c, init):
     return out
 
 
-def sym_init(c):
+def sym_init(c, caps=None):
     init = {}
     for name in ("A", "B"):
         t = name.lower() + "_"
+        if caps is not None:
+            # concrete capacities (the state thresholds become linear in the balances), symbolic balances
+            d = {"max_atp": caps[0], "max_gtp": caps[1], "max_nadh": caps[2], "max_debt": caps[3],
+                 "atp": c.int(t + "atp", 0, caps[0]), "gtp": c.int(t + "gtp", 0, caps[1]), "nadh": c.int(t + "nadh", 0, caps[2]),
+                 "_debt": c.int(t + "debt", 0, caps[3]), "_total_consumed": 0, "_state": MetabolicState.NORMAL}
+            init[name] = d
+            continue
         d = {"max_atp": c.int(t + "max_atp", 0, CAP), "max_gtp": c.int(t + "max_gtp", 0, CAP), "max_nadh": c.int(t + "max_nadh", 0, CAP),
              "max_debt": c.int(t + "max_debt", 0, CAP), "atp": c.int(t + "atp", 0, CAP), "gtp": c.int(t + "gtp", 0, CAP),
              "nadh": c.int(t + "nadh", 0, CAP), "_debt": c.int(t + "debt", 0, CAP), "_total_consumed": 0,
@@ -71,23 +78,28 @@ def thunk(stores, desc):
     return lambda: getattr(stores[on], meth)(*args)
 
 
-def outcome(stores, results):
+def outcome(stores, results, with_state=False):
     fields = []
     for name in ("A", "B"):
         s = stores[name]
         fields += [s.atp, s.gtp, s.nadh, s._debt, s._total_consumed]
+        if with_state:
+            fields.append(s._state)
     return list(results) + fields
 
 
 def same(o1, o2):
-    return b_and(*[eq(a, b) if not (a is None or b is None) else (a is b) for a, b in zip(o1, o2)])
+    return b_and(*[(a is b) if (a is None or b is None or isinstance(a, MetabolicState)) else eq(a, b) for a, b in zip(o1, o2)])
 
 
-def concurrent(ops_per_thread, preempt, cut=True):
-    """ops_per_thread: list (per thread) of lists of op names"""
+def concurrent(ops_per_thread, preempt, cut=True, caps=None):
+    """ops_per_thread: list (per thread) of lists of op names.
+    caps=(max_atp, max_gtp, max_nadh, max_debt): the REAL _update_state runs (no cut) with concrete capacities, and
+    the metabolic state of each store is part of the compared outcome (a stale state write is a lost update: the
+    state gates later spends)"""
     def h(c):
-        CUT["on"] = cut
-        init = sym_init(c)
+        CUT["on"] = cut and caps is None
+        init = sym_init(c, caps)
         descs = [[OPS[name](c, f"t{ti}o{oi}") for oi, name in enumerate(names)] for ti, names in enumerate(ops_per_thread)]
         stores = make_stores(c, init)
         results = {}
@@ -110,10 +122,10 @@ def concurrent(ops_per_thread, preempt, cut=True):
                 return
         c.check("C05.c", True)
         keys = sorted(results)
-        conc = outcome(stores, [results[k] for k in keys])
+        conc = outcome(stores, [results[k] for k in keys], caps is not None)
         info["schedule"] = sch.trace[-16:]
         c.observe("returns", [results[k] for k in keys], float_derived=True)   # gating depends on the float-derived state
-        c.observe("final", conc[len(keys):], float_derived=True)
+        c.observe("final", [getattr(x, "name", x) for x in conc[len(keys):]], float_derived=True)
         # C05.b no negative balance
         for name in ("A", "B"):
             s = stores[name]
@@ -154,7 +166,7 @@ def concurrent(ops_per_thread, preempt, cut=True):
                             st2[args[0]].regenerate(*args[1:])
                     except Exception as e:  # noqa
                         return None
-                return outcome(st2, [res2[k] for k in keys])
+                return outcome(st2, [res2[k] for k in keys], caps is not None)
             # every sub-path of this sequential order, as a summary (no forking of the current path)
             for cond, seq in c.summarize(seq_run):
                 if seq is not None:
@@ -174,9 +186,12 @@ PAIRS_Q = [["consume_atp"], ["consume_atp"]], [["consume_atp_debt"], ["regenerat
 PAIRS_T = PAIRS_Q + ([["consume_atp_debt"], ["consume_atp_debt"]], [["regenerate"], ["regenerate"]], [["convert"], ["convert"]],
                      [["transfer_ab"], ["transfer_ab"]], [["transfer_ba"], ["consume_atp_debt"]], [["regenerate"], ["convert"]])
 
+STATE_PAIRS = [["regenerate"], ["consume_atp"]], [["consume_atp_debt"], ["consume_atp"]], [["transfer_ab"], ["consume_atp"]]
+
 HARNESSES = {
     "pairs": {"make": concurrent, "witness_every": 19,
-              "jobs": lambda tier: ([{"ops_per_thread": p, "preempt": 1} for p in PAIRS_Q] if tier == "quick" else
+              "jobs": lambda tier: [{"ops_per_thread": p, "preempt": 1, "caps": (8, 0, 0, 4)} for p in STATE_PAIRS] +
+                                   ([{"ops_per_thread": p, "preempt": 1} for p in PAIRS_Q] if tier == "quick" else
                                     [{"ops_per_thread": p, "preempt": 2} for p in PAIRS_T]
                                     + [{"ops_per_thread": [["consume_atp"], ["consume_atp"], ["regenerate"]], "preempt": 1},
                                        {"ops_per_thread": [["transfer_ab"], ["transfer_ba"], ["consume_atp"]], "preempt": 1},
